@@ -96,6 +96,13 @@ def make_items(tier, seed, shard, nshards):
             victim = [c for c in t3 if c.tag == dts[0].tag][0]
             victim.text = "20051020120000.000[-5:EST]"          # a valid one with an offset: normalised to UTC
             items.append(("tree", C.__name__ + "/offset-datetime", ET.tostring(t3)))
+        from ofxtools import Types as _T
+        strs = [c for c in tree if c.text and isinstance(C.spec.get(c.tag.lower()), _T.String) and (C.spec[c.tag.lower()].length or 99) >= 24]
+        if strs:
+            # a text that still looks like an entity after it has been read (the institution escaped it twice)
+            t7 = copy.deepcopy(tree)
+            [c for c in t7 if c.tag == strs[0].tag][0].text = "Fish &amp;amp; Chips &amp;lt;1&amp;gt;"
+            items.append(("tree", C.__name__ + "/entity-looking-text", ET.tostring(t7)))
         if len(tree) >= 2:
             t4 = copy.deepcopy(tree)
             kids = list(t4)
